@@ -1,118 +1,298 @@
-"""Prototype path-forking symbolic executor: z3-valued scalars carried by numpy object arrays."""
-import z3, numpy as np, time
+"""
+E2 pysym: path-forking symbolic execution of the real Python/numpy code of /repo.
+
+Real functions are called unmodified on objects whose leaves are z3-valued scalars
+(SR real, SB bool), usually carried in numpy *object* arrays.  Arithmetic builds z3 terms;
+every place where Python needs a concrete truth value (`if`, comparison ufuncs on object
+arrays, argmax, sorted, np.where ...) ends in `__bool__`, where the engine asks the solver
+which sides are feasible under the current path condition, takes one and queues the other
+(re-execution from the start with a decision prefix).  One finished path yields
+(path condition, definitions, result); the property is then decided per path by a query.
+"""
+import time
+from fractions import Fraction
+
+import numpy as np
+import z3
+
+R = z3.RealSort()
+UFS = {n: z3.Function(n, R, R) for n in ('sin', 'cos', 'tan', 'exp', 'log', 'sqrt_', 'atan')}
+UFS2 = {n: z3.Function(n, R, R, R) for n in ('atan2', 'pow')}
+
+
+class Infeasible(Exception):
+    """the current path condition is unsatisfiable"""
+
+
+class Abort(Exception):
+    """a bound (unwinding, max depth) was exceeded on this path: the path is inconclusive"""
+
 
 class Engine:
-    def __init__(self):
+    def __init__(self, timeout_ms=5000):
         self.solver = z3.Solver()
-        self.prefix = []      # decisions to replay
-        self.trace = []       # decisions taken in this run
-        self.pc = []          # path condition
-        self.todo = []        # pending prefixes
+        self.solver.set('timeout', timeout_ms)
+        self.prefix = []
+        self.trace = []
+        self.pc = []
+        self.defs = []
+        self.todo = []
         self.queries = 0
+        self.solver_s = 0.0
+        self.k = 0
+        self.max_depth = 400
+        self.unknown_branches = 0
+        self.base = []          # global preconditions (assumed on every path)
+
+    def fresh(self, p='q'):
+        self.k += 1
+        return z3.Real(f'__{p}{self.k}')
+
+    def _sat(self, *extra):
+        self.solver.push()
+        self.solver.add(*self.base, *self.pc, *self.defs, *extra)
+        t = time.time()
+        r = self.solver.check()
+        self.solver_s += time.time() - t
+        self.queries += 1
+        self.solver.pop()
+        return r
+
     def branch(self, cond):
         cond = z3.simplify(cond)
-        if z3.is_true(cond): return True
-        if z3.is_false(cond): return False
+        if z3.is_true(cond):
+            return True
+        if z3.is_false(cond):
+            return False
         i = len(self.trace)
+        if i >= self.max_depth:
+            raise Abort('max branch depth')
         if i < len(self.prefix):
             d = self.prefix[i]
         else:
-            # feasibility of both sides
-            self.solver.push(); self.solver.add(*self.pc, cond); self.queries += 1
-            t_ok = self.solver.check() == z3.sat; self.solver.pop()
-            self.solver.push(); self.solver.add(*self.pc, z3.Not(cond)); self.queries += 1
-            f_ok = self.solver.check() == z3.sat; self.solver.pop()
+            rt = self._sat(cond)
+            rf = self._sat(z3.Not(cond))
+            t_ok, f_ok = rt != z3.unsat, rf != z3.unsat
+            if rt == z3.unknown or rf == z3.unknown:
+                self.unknown_branches += 1
             if t_ok and f_ok:
-                self.todo.append(self.trace + [False]); d = True
-            elif t_ok: d = True
-            elif f_ok: d = False
-            else: raise Infeasible()
+                self.todo.append(self.trace + [False])
+                d = True
+            elif t_ok:
+                d = True
+            elif f_ok:
+                d = False
+            else:
+                raise Infeasible()
         self.trace.append(d)
         self.pc.append(cond if d else z3.Not(cond))
         return d
-    def explore(self, fn, max_paths=10000):
-        self.todo = [[]]; n = 0
-        while self.todo and n < max_paths:
-            self.prefix = self.todo.pop(); self.trace = []; self.pc = []
+
+    def assume(self, cond):
+        """restrict the current path (precondition placed before the code it constrains)"""
+        cond = z3.simplify(cond if not isinstance(cond, SB) else cond.e)
+        if z3.is_true(cond):
+            return
+        self.pc.append(cond)
+        if z3.is_false(cond) or self._sat() == z3.unsat:
+            raise Infeasible()
+
+    def explore(self, fn, max_paths=20000):
+        """run fn() once per feasible path; yields Path objects"""
+        self.todo = [[]]
+        n = 0
+        while self.todo:
+            if n >= max_paths:
+                raise Abort(f'more than {max_paths} paths')
+            self.prefix = self.todo.pop()
+            self.trace, self.pc, self.defs, self.k = [], [], [], 0
+            exc = None
+            out = None
             try:
                 out = fn()
             except Infeasible:
                 continue
+            except Abort as e:
+                exc = e
+            except Exception as e:      # the code under test raised: a result in its own right
+                exc = e
             n += 1
-            yield list(self.pc), out
+            yield Path(list(self.pc), list(self.defs), out, exc, list(self.trace))
 
-class Infeasible(Exception): pass
+
+class Path:
+    def __init__(self, pc, defs, out, exc, trace):
+        self.pc, self.defs, self.out, self.exc, self.trace = pc, defs, out, exc, trace
+
+    def cond(self):
+        return list(ENG.base) + self.pc + self.defs
+
+
 ENG = Engine()
 
+
+def reset(timeout_ms=5000):
+    global ENG
+    ENG = Engine(timeout_ms)
+    return ENG
+
+
+# --------------------------------------------------------------------------- values
+def ratval(x):
+    f = Fraction(x)
+    return z3.RealVal(f'{f.numerator}/{f.denominator}')
+
+
 def lift(x):
-    if isinstance(x, SR): return x.e
-    if isinstance(x, SB): return z3.If(x.e, z3.RealVal(1), z3.RealVal(0))
-    if isinstance(x, (bool, np.bool_)): return z3.RealVal(int(x))
-    if isinstance(x, (int, np.integer)): return z3.RealVal(int(x))
+    if isinstance(x, SR):
+        return x.e
+    if isinstance(x, SB):
+        return z3.If(x.e, z3.RealVal(1), z3.RealVal(0))
+    if isinstance(x, (bool, np.bool_)):
+        return z3.RealVal(int(x))
+    if isinstance(x, (int, np.integer)):
+        return z3.RealVal(int(x))
     if isinstance(x, (float, np.floating)):
-        from fractions import Fraction
-        f = Fraction(float(x)); return z3.RealVal(f'{f.numerator}/{f.denominator}')
+        return ratval(float(x))
+    if isinstance(x, Fraction):
+        return ratval(x)
+    if isinstance(x, np.ndarray) and x.ndim == 0:
+        return lift(x.item())
+    if z3.is_expr(x):
+        return x
     raise TypeError(type(x))
 
-UFS = {n: z3.Function(n, z3.RealSort(), z3.RealSort()) for n in ('sin','cos','tan','exp','log','sqrt_')}
+
+def tobool(o):
+    if isinstance(o, SB):
+        return o.e
+    if isinstance(o, SR):
+        return o.e != 0
+    return z3.BoolVal(bool(o))
+
 
 class SB:
-    def __init__(self, e): self.e = e
-    def __bool__(self): return ENG.branch(self.e)
-    def __and__(self, o): return SB(z3.And(self.e, tobool(o)))
+    """symbolic boolean"""
+    __array_priority__ = 1000
+
+    def __init__(self, e):
+        self.e = e
+
+    def __bool__(self):
+        return ENG.branch(self.e)
+
+    def __and__(self, o):
+        if isinstance(o, np.ndarray): return NotImplemented
+        return SB(z3.And(self.e, tobool(o)))
     __rand__ = __and__
-    def __or__(self, o): return SB(z3.Or(self.e, tobool(o)))
+
+    def __or__(self, o):
+        if isinstance(o, np.ndarray): return NotImplemented
+        return SB(z3.Or(self.e, tobool(o)))
     __ror__ = __or__
+
+    def __xor__(self, o):
+        if isinstance(o, np.ndarray): return NotImplemented
+        return SB(z3.Xor(self.e, tobool(o)))
+    __rxor__ = __xor__
+
     def __invert__(self): return SB(z3.Not(self.e))
     def logical_not(self): return SB(z3.Not(self.e))
     def _n(self): return SR(lift(self))
-    def __mul__(self, o): return self._n() * o
+    def __mul__(self, o):
+        if isinstance(o, np.ndarray): return NotImplemented
+        return self._n() * o
     __rmul__ = __mul__
-    def __add__(self, o): return self._n() + o
+    def __add__(self, o):
+        if isinstance(o, np.ndarray): return NotImplemented
+        return self._n() + o
     __radd__ = __add__
-    def __sub__(self, o): return self._n() - o
-    def __rsub__(self, o): return SR(lift(o)) - self._n()
-    def __eq__(self, o): return self._n() == o
+    def __sub__(self, o):
+        if isinstance(o, np.ndarray): return NotImplemented
+        return self._n() - o
+    def __rsub__(self, o):
+        if isinstance(o, np.ndarray): return NotImplemented
+        return SR(lift(o)) - self._n()
+    def __neg__(self): return -self._n()
+    def __eq__(self, o):
+        if isinstance(o, np.ndarray): return NotImplemented
+        if isinstance(o, SB): return SB(self.e == o.e)
+        return self._n() == o
+    def __ne__(self, o):
+        if isinstance(o, np.ndarray): return NotImplemented
+        if isinstance(o, SB): return SB(self.e != o.e)
+        return self._n() != o
+    def __lt__(self, o): return self._n() < o
+    def __le__(self, o): return self._n() <= o
+    def __gt__(self, o): return self._n() > o
+    def __ge__(self, o): return self._n() >= o
     def __float__(self): return 1.0 if bool(self) else 0.0
+    def __int__(self): return 1 if bool(self) else 0
+    def __index__(self): return 1 if bool(self) else 0
+    def __repr__(self): return f'SB({self.e})'
     __hash__ = None
 
-def tobool(o):
-    if isinstance(o, SB): return o.e
-    if isinstance(o, SR): return o.e != 0
-    return z3.BoolVal(bool(o))
+
+def _nd(o):
+    return isinstance(o, np.ndarray) and o.ndim > 0
+
 
 class SR:
+    """symbolic real"""
     __array_priority__ = 1000
-    def __init__(self, e): self.e = e
-    def __add__(self, o): 
-        if isinstance(o, np.ndarray): return NotImplemented
+
+    def __init__(self, e):
+        self.e = e
+
+    def __add__(self, o):
+        if _nd(o): return NotImplemented
         return SR(self.e + lift(o))
     __radd__ = __add__
-    def __sub__(self, o): 
-        if isinstance(o, np.ndarray): return NotImplemented
+    def __sub__(self, o):
+        if _nd(o): return NotImplemented
         return SR(self.e - lift(o))
-    def __rsub__(self, o): 
-        if isinstance(o, np.ndarray): return NotImplemented
+    def __rsub__(self, o):
+        if _nd(o): return NotImplemented
         return SR(lift(o) - self.e)
-    def __mul__(self, o): 
-        if isinstance(o, np.ndarray): return NotImplemented
+    def __mul__(self, o):
+        if _nd(o): return NotImplemented
         return SR(self.e * lift(o))
     __rmul__ = __mul__
-    def __truediv__(self, o): 
-        if isinstance(o, np.ndarray): return NotImplemented
-        return _quot(self.e, lift(o))
-    def __rtruediv__(self, o): 
-        if isinstance(o, np.ndarray): return NotImplemented
-        return _quot(lift(o), self.e)
+    def __truediv__(self, o):
+        if _nd(o): return NotImplemented
+        return quot(self.e, lift(o))
+    def __rtruediv__(self, o):
+        if _nd(o): return NotImplemented
+        return quot(lift(o), self.e)
     def __neg__(self): return SR(-self.e)
+    def __pos__(self): return self
     def __round__(self, n=None): return self
     def sin(self): return SR(UFS['sin'](self.e))
     def cos(self): return SR(UFS['cos'](self.e))
     def tan(self): return SR(UFS['tan'](self.e))
     def exp(self): return SR(UFS['exp'](self.e))
     def log(self): return SR(UFS['log'](self.e))
-    def sqrt(self): return SR(UFS['sqrt_'](self.e))
+    def arctan(self): return SR(UFS['atan'](self.e))
+    def sqrt(self):
+        s = UFS['sqrt_'](self.e)
+        ENG.defs.append(z3.Implies(self.e >= 0, z3.And(s >= 0, s * s == self.e)))
+        return SR(s)
+    def conjugate(self): return self
+    conj = conjugate
+    @property
+    def real(self): return self
+    @property
+    def imag(self): return SR(z3.RealVal(0))
+
     def __pow__(self, p):
+        if isinstance(p, SR):
+            pv = z3.simplify(p.e)
+            if z3.is_rational_value(pv):
+                p = float(pv.as_fraction())
+            else:
+                return SR(UFS2['pow'](self.e, p.e))
+        if isinstance(p, (np.integer, np.floating)):
+            p = p.item()
         if isinstance(p, (int, float)) and float(p).is_integer():
             p = int(p)
             if p == 0: return SR(z3.RealVal(1))
@@ -120,44 +300,134 @@ class SR:
             out = self
             for _ in range(p - 1): out = out * self
             return out
-        raise NotImplementedError(('pow', p))
+        if p == 0.5:
+            return self.sqrt()
+        return SR(UFS2['pow'](self.e, lift(p)))
+
+    def __rpow__(self, b):
+        return SR(UFS2['pow'](lift(b), self.e))
+
     def tolist(self): return self
+    def item(self): return self
+    def copy(self): return self
     def __abs__(self): return SR(z3.If(self.e >= 0, self.e, -self.e))
-    def __lt__(self, o): 
-        if isinstance(o, np.ndarray): return NotImplemented
+    def __lt__(self, o):
+        if _nd(o): return NotImplemented
         return SB(self.e < lift(o))
-    def __le__(self, o): 
-        if isinstance(o, np.ndarray): return NotImplemented
+    def __le__(self, o):
+        if _nd(o): return NotImplemented
         return SB(self.e <= lift(o))
-    def __gt__(self, o): 
-        if isinstance(o, np.ndarray): return NotImplemented
+    def __gt__(self, o):
+        if _nd(o): return NotImplemented
         return SB(self.e > lift(o))
-    def __ge__(self, o): 
-        if isinstance(o, np.ndarray): return NotImplemented
+    def __ge__(self, o):
+        if _nd(o): return NotImplemented
         return SB(self.e >= lift(o))
-    def __eq__(self, o): 
-        if isinstance(o, np.ndarray): return NotImplemented
+    def __eq__(self, o):
+        if _nd(o): return NotImplemented
+        if o is None: return False
         return SB(self.e == lift(o))
-    def __ne__(self, o): 
-        if isinstance(o, np.ndarray): return NotImplemented
+    def __ne__(self, o):
+        if _nd(o): return NotImplemented
+        if o is None: return True
         return SB(self.e != lift(o))
     def __bool__(self): return ENG.branch(self.e != 0)
     def logical_not(self): return SB(self.e == 0)
+    def __repr__(self): return f'SR({z3.simplify(self.e)})'
     __hash__ = None
 
-DEFS = []
-_qk = [0]
-def _quot(num, den):
+
+def quot(num, den):
+    """division-free quotient: fresh q with q*den = num and den != 0 (definedness is an explicit
+    assumption of the path); constant denominators divide directly"""
     den_s = z3.simplify(den)
     if z3.is_rational_value(den_s):
+        if den_s.as_fraction() == 0:
+            raise ZeroDivisionError('symbolic division by constant zero')
         return SR(num / den_s)
-    _qk[0] += 1
-    q = z3.Real(f'__q{_qk[0]}')
-    DEFS.append(z3.And(den != 0, q * den == num))
+    q = ENG.fresh('q')
+    ENG.defs.append(z3.And(den != 0, q * den == num))
     return SR(q)
 
-def sym(name): return SR(z3.Real(name))
-def arr(*names): 
-    a = np.empty(len(names), dtype=object)
-    for i, n in enumerate(names): a[i] = sym(n) if isinstance(n, str) else n
+
+def sym(name):
+    return SR(z3.Real(name))
+
+
+def symb(name):
+    return SB(z3.Bool(name))
+
+
+def arr(*items):
+    a = np.empty(len(items), dtype=object)
+    for i, n in enumerate(items):
+        a[i] = sym(n) if isinstance(n, str) else n
     return a
+
+
+def symarr(prefix, n):
+    return arr(*[f'{prefix}{i}' for i in range(n)])
+
+
+def oarr(values):
+    """object array from a list of numbers / SR"""
+    a = np.empty(len(values), dtype=object)
+    for i, v in enumerate(values):
+        a[i] = v
+    return a
+
+
+def terms(a):
+    """list of z3 terms of an object array / list / scalar"""
+    if isinstance(a, np.ndarray):
+        return [lift(x) for x in a.ravel().tolist()]
+    if isinstance(a, (list, tuple)):
+        return [lift(x) for x in a]
+    return [lift(a)]
+
+
+# --------------------------------------------------------------------------- deciding
+def decide(path_cond, claim, timeout_ms=10000, extra=()):
+    """is `claim` implied by the path condition?  -> (status, model, secs)"""
+    s = z3.Solver()
+    s.set('timeout', timeout_ms)
+    s.add(*path_cond, *extra)
+    s.add(z3.Not(claim))
+    t = time.time()
+    r = str(s.check())
+    return r, (s.model() if r == 'sat' else None), time.time() - t
+
+
+def feasible(path_cond, extra=(), timeout_ms=10000):
+    s = z3.Solver()
+    s.set('timeout', timeout_ms)
+    s.add(*path_cond, *extra)
+    t = time.time()
+    r = str(s.check())
+    return r, (s.model() if r == 'sat' else None), time.time() - t
+
+
+def mval(model, term):
+    """float value of a term under a model (model completion on)"""
+    v = model.eval(term, model_completion=True)
+    if z3.is_true(v): return 1.0
+    if z3.is_false(v): return 0.0
+    if z3.is_rational_value(v):
+        return float(v.as_fraction())
+    if z3.is_algebraic_value(v):
+        return float(v.approx(20).as_fraction())
+    v = z3.simplify(v)
+    if z3.is_rational_value(v):
+        return float(v.as_fraction())
+    raise ValueError(str(v))
+
+
+def model_dict(model):
+    out = {}
+    for d in model.decls():
+        if d.arity() == 0:
+            try:
+                out[d.name()] = mval(model, d())
+            except Exception:
+                out[d.name()] = str(model[d])
+    return out
